@@ -1,4 +1,5 @@
 import JunoModel.C11.Model
+import JunoModel.C11.ModelFloat
 /-
 C11 — the concrete `Env` used by the correspondence harness: what `json.Unmarshal` into the Go
 parameter types of the harness' recording handlers accepts and produces, what the validator
@@ -40,30 +41,28 @@ def intJson (i : Int) : Json := .num (toString i)
 
 /-! ## `any` / `json.RawMessage` parameters -/
 
-/-- a number literal that survives the trip through float64 unchanged: plain integer of at most
-15 digits -/
-def safeNum (t : String) : Bool :=
-  match t.toList with
-  | '-' :: ds => ds.length ≤ 15 && !ds.isEmpty && ds.all (fun c => '0' ≤ c ∧ c ≤ '9')
-  | ds => ds.length ≤ 15 && !ds.isEmpty && ds.all (fun c => '0' ≤ c ∧ c ≤ '9')
-
 mutual
-def hasUnsafeNum : Json → Bool
-  | .num t => !safeNum t
-  | .arr xs => hasUnsafeNumList xs
-  | .obj kvs => hasUnsafeNumMembers kvs
-  | _ => false
-def hasUnsafeNumList : List Json → Bool
-  | [] => false
-  | x :: xs => hasUnsafeNum x || hasUnsafeNumList xs
-def hasUnsafeNumMembers : List (String × Json) → Bool
-  | [] => false
-  | (_, v) :: r => hasUnsafeNum v || hasUnsafeNumMembers r
+/-- numbers of a value stored in a Go `any` are float64: every number literal is replaced by
+what `json.Marshal` writes for the float64 it parses to; `none` if one of them overflows
+(`json.Unmarshal` then fails) -/
+def floatNums : Json → Option Json
+  | .num t => (F64.roundTrip t).map .num
+  | .arr xs => (floatNumsList xs).map .arr
+  | .obj kvs => (floatNumsMembers kvs).map .obj
+  | j => some j
+def floatNumsList : List Json → Option (List Json)
+  | [] => some []
+  | x :: xs => do
+    let y ← floatNums x
+    let ys ← floatNumsList xs
+    pure (y :: ys)
+def floatNumsMembers : List (String × Json) → Option (List (String × Json))
+  | [] => some []
+  | (k, v) :: r => do
+    let y ← floatNums v
+    let ys ← floatNumsMembers r
+    pure ((k, y) :: ys)
 end
-
-/-- marker argument: "an `any` parameter received a number that goes through float64; the model
-does not say what the handler sees" -/
-def dkMarker : Json := .str "\x01dk"
 
 /-! ## struct parameters with validation -/
 
@@ -130,28 +129,46 @@ def storeFelt : Json → Option (Option Nat)
   | _ => none
 
 /-- `struct{ MaxAmount *felt.Felt `json:"max_amount" validate:"required,felt_max_bits=64"`;
-            Version *felt.Felt `json:"version" validate:"required,version_0x3"` }` -/
+            MaxPricePerUnit *felt.Felt `json:"max_price_per_unit" validate:"required,felt_max_bits=128"`;
+            Version *felt.Felt `json:"version" validate:"required,version_0x3"` }`
+(the first two as in `rpc/v10/transaction_types.go` `ResourceBounds`, the third as in
+`BroadcastedTransaction.Version`). State: the three pointers and "a decode error happened". -/
+structure BoundsSt where
+  ma : Option Nat := none
+  mp : Option Nat := none
+  ver : Option Nat := none
+  err : Bool := false
+
+def boundsStep (st : BoundsSt) (kv : String × Json) : BoundsSt :=
+  if st.err then st
+  else if kv.1 == "max_amount" || foldEq kv.1 "MAX_AMOUNT" then
+    match storeFelt kv.2 with
+    | some v => { st with ma := v }
+    | none => { st with err := true }
+  else if kv.1 == "max_price_per_unit" || foldEq kv.1 "MAX_PRICE_PER_UNIT" then
+    match storeFelt kv.2 with
+    | some v => { st with mp := v }
+    | none => { st with err := true }
+  else if kv.1 == "version" || foldEq kv.1 "VERSION" then
+    match storeFelt kv.2 with
+    | some v => { st with ver := v }
+    | none => { st with err := true }
+  else st
+
+/-- the validator on the decoded struct: all three `required`, the bit limits, the version -/
+def boundsValid (ma mp ver : Nat) : Bool := feltMaxBits ma 64 && feltMaxBits mp 128 && version03 ver
+
 def decodeBounds : Json → Option Json
   | .obj kvs =>
-    let st : Option Nat × Option Nat × Bool := kvs.foldl
-      (fun (st : Option Nat × Option Nat × Bool) kv =>
-        if st.2.2 then st
-        else if kv.1 == "max_amount" || foldEq kv.1 "MAX_AMOUNT" then
-          match storeFelt kv.2 with
-          | some v => (v, st.2.1, false)
-          | none => (st.1, st.2.1, true)
-        else if kv.1 == "version" || foldEq kv.1 "VERSION" then
-          match storeFelt kv.2 with
-          | some v => (st.1, v, false)
-          | none => (st.1, st.2.1, true)
-        else st) (none, none, false)
-    if st.2.2 then none else
-    match st.1, st.2.1 with
-    | some ma, some ver =>
-      if feltMaxBits ma 64 && version03 ver then
-        some (.obj [("max_amount", .str (feltString ma)), ("version", .str (feltString ver))])
+    let st := kvs.foldl boundsStep {}
+    if st.err then none else
+    match st.ma, st.mp, st.ver with
+    | some ma, some mp, some ver =>
+      if boundsValid ma mp ver then
+        some (.obj [("max_amount", .str (feltString ma)), ("max_price_per_unit", .str (feltString mp)),
+                    ("version", .str (feltString ver))])
       else none
-    | _, _ => none                        -- `required` fails on a nil pointer
+    | _, _, _ => none                     -- `required` fails on a nil pointer
   | _ => none                             -- null: zero struct fails `required`; others: type error
 
 /-! ## the environment -/
@@ -163,11 +180,9 @@ def listAll? {α β : Type} (f : α → Option β) : List α → Option (List β
     let ys ← listAll? f xs
     pure (y :: ys)
 
-/-- `strictAny = true`: reject unsafe numbers at `any`; `false`: accept them as `dkMarker`.
-The driver runs both and answers "don't know" when the two outcomes differ. -/
-def goDecode (strictAny : Bool) : PType → Json → Option Json
-  | .any, v =>
-    if hasUnsafeNum v then (if strictAny then none else some dkMarker) else some (canon v)
+/-- (`strictAny` is unused since numbers at `any` are modelled exactly, see ModelFloat.lean) -/
+def goDecode (_strictAny : Bool) : PType → Json → Option Json
+  | .any, v => floatNums (canon v)
   | .raw, v => some (canon v)
   | .int, v => (decodeInt v).map intJson
   | .str, .null => some (.str "")
@@ -193,7 +208,7 @@ def goZero : PType → Json
   | .ptrInt => .null
   | .ints => .null
   | .vstruct => .obj [("A", .num "0")]
-  | .bounds => .obj [("max_amount", .null), ("version", .null)]
+  | .bounds => .obj [("max_amount", .null), ("max_price_per_unit", .null), ("version", .null)]
 
 /-- behaviours of the harness' recording handlers -/
 inductive Behaviour where
@@ -213,7 +228,7 @@ def goEnv (strictAny : Bool) (behaviours : List (String × Behaviour)) : Env whe
   decode := goDecode strictAny
   zero := goZero
   call name args :=
-    match behaviours.find? (fun nb => nb.1 = name) with
+    match behaviours.reverse.find? (fun nb => nb.1 = name) with
     | some nb => behave nb.2 args
     | none => {}
 
